@@ -19,7 +19,9 @@ RULE = (
     "multisets of (element, sorted elements of bonded neighbours) differ - "
     "for reaction classes taken for reactant, product and TS, any of the "
     "three differing qualifies; non-qualifying pairs are excluded and "
-    "counted. Family 2: a random surrounding skeleton plus exactly one "
+    "counted; a sixth of the pairs is hashed once more with the same 64-79 "
+    "H2 molecules inserted in front of both graphs (> 128 atoms, the "
+    "multisets still differ). Family 2: a random surrounding skeleton plus exactly one "
     "stereogenic unit - a Tetrahedral centre with four ligands of pairwise "
     "distinct elements (parity +1 vs -1), or a PlanarBond whose ends each "
     "carry two substituents of distinct elements (the two orientations). "
@@ -56,6 +58,28 @@ def family1_differs(ma, mb):
 
 
 def gen1(data: bytes):
+    case = _gen1(data)
+    # the last bytes of the tape are not reached by _gen1: a share of the
+    # pairs is later padded with the same 64-79 H2 molecules in front
+    if len(data) >= 2 and data[-2] % 6 == 0:
+        case["pad"] = 64 + data[-1] % 16
+    return case
+
+
+def _padded(recipe, k):
+    """the recipe with k H2 molecules inserted BEFORE its own atoms (the
+    same addition to both graphs of a pair keeps their neighbourhood
+    multisets different; the graphs get > 128 atoms)"""
+    used = {a[0] for a in recipe["atoms"]}
+    ids = [i for i in range(3 * 10**6, 3 * 10**6 + 2 * k + len(used) + 2)
+           if i not in used][:2 * k]
+    return {**recipe,
+            "atoms": [[i, 1, {}] for i in ids] + list(recipe["atoms"]),
+            "bonds": [[ids[2 * j], ids[2 * j + 1], None, {}]
+                      for j in range(k)] + list(recipe["bonds"])}
+
+
+def _gen1(data: bytes):
     from vp.props import c02
     tp = S.Tape(data)
     if tp.chance(50):
@@ -307,6 +331,14 @@ def check_case(ctx, case):
         ha, hb = hash(a), hash(b)
     if ha == hb:
         raise Violation(sig, f"both hash to {ha}")
+    if case["fam"] == 1 and case.get("pad"):
+        pa, pb = (rc.build(_padded(case[x], case["pad"])) for x in "ab")
+        with guard(f"C16/{ma.cls}/hash-padded"):
+            hpa, hpb = hash(pa), hash(pb)
+        if hpa == hpb:
+            raise Violation(sig.replace("/family1/", "/family1-padded/"),
+                            f"with {case['pad']} H2 molecules in front of "
+                            f"both graphs both hash to {hpa}")
     if case["fam"] == 2 and len(list(ma.all_descs())) == 1:
         # the hash-based stereoisomer generator must find both isomers of
         # the unit when its parity is left open
